@@ -105,6 +105,15 @@ class HashFileDB(ObjectDB):
         if check_exists and not isinstance(self.state, StateNoop):
             skipped = {o for o in oids if self.exists(o)}
 
+        # NOTE: nor can it vouch for what sits at the path of an object that it
+        # has failed to write.
+        failed: set[str] = set()
+
+        def _on_error(_oid: str, exc: BaseException):
+            assert on_error is not None
+            failed.add(_oid)
+            on_error(_oid, exc)
+
         transferred = super().add(
             paths,
             fs,
@@ -112,7 +121,7 @@ class HashFileDB(ObjectDB):
             hardlink=hardlink,
             callback=callback,
             check_exists=check_exists,
-            on_error=on_error,
+            on_error=_on_error if on_error is not None else None,
             **kwargs,
         )
 
@@ -135,7 +144,7 @@ class HashFileDB(ObjectDB):
             (
                 (cache_path, HashInfo(name=self.hash_name, value=o), None)
                 for o, cache_path in oid_cache_paths.items()
-                if o not in skipped
+                if o not in skipped and o not in failed
             ),
             self.fs,
         )
